@@ -319,6 +319,10 @@ func scratchBase() string {
 func parent(ck *Check, tier string, seed int64) int {
 	start := time.Now()
 	root := verifRoot()
+	outRoot := root
+	if o := os.Getenv("VERIF_OUT"); o != "" {
+		outRoot = o // experiments (seeded-change runs): keep evidence/ and replays/ of /verif untouched
+	}
 	n := 0
 	if ck.Shards != nil {
 		n = ck.Shards(tier)
@@ -461,7 +465,7 @@ func parent(ck *Check, tier string, seed int64) int {
 	newSigs := map[string]bool{}
 	nNew := 0
 	exit := 0
-	_ = os.MkdirAll(filepath.Join(root, "replays"), 0o777)
+	_ = os.MkdirAll(filepath.Join(outRoot, "replays"), 0o777)
 	for _, v := range m.Violations {
 		if k := matchKnown(kf, ck.ID, v.Sig); k != nil {
 			if !printedKnown[k.Sig] {
@@ -483,7 +487,7 @@ func parent(ck *Check, tier string, seed int64) int {
 		art := map[string]interface{}{"property": ck.ID, "sig": v.Sig, "detail": v.Detail, "case": v.Case, "tier": tier}
 		ab, _ := json.MarshalIndent(art, "", " ")
 		sum := sha256.Sum256(ab)
-		path := filepath.Join(root, "replays", fmt.Sprintf("%s-%s.json", ck.ID, hex.EncodeToString(sum[:6])))
+		path := filepath.Join(outRoot, "replays", fmt.Sprintf("%s-%s.json", ck.ID, hex.EncodeToString(sum[:6])))
 		_ = os.WriteFile(path, ab, 0o666)
 		fmt.Printf("VIOLATION property=%s replay=%s\n", ck.ID, path)
 		fmt.Printf("  sig=%s\n  %s\n", v.Sig, strings.ReplaceAll(tail(v.Detail, 1500), "\n", "\n  "))
@@ -559,8 +563,8 @@ func parent(ck *Check, tier string, seed int64) int {
 		"violations":  nNew,
 	}
 	eb, _ := json.MarshalIndent(ev, "", " ")
-	_ = os.MkdirAll(filepath.Join(root, "evidence"), 0o777)
-	if err := os.WriteFile(filepath.Join(root, "evidence", ck.ID+".json"), eb, 0o666); err != nil {
+	_ = os.MkdirAll(filepath.Join(outRoot, "evidence"), 0o777)
+	if err := os.WriteFile(filepath.Join(outRoot, "evidence", ck.ID+".json"), eb, 0o666); err != nil {
 		fmt.Fprintln(os.Stderr, err)
 		return 2
 	}
